@@ -7,6 +7,7 @@ from __future__ import annotations
 import copy
 import io
 import math
+import os
 import random
 
 import numpy as np
@@ -183,16 +184,24 @@ def execute_step(m: Machine, step, prop_of):
                     e.obj.transform(Tm)
                 e.model.left(Rt, tt)
             elif mode == "right":
+                # the flags are used for their truth value: evo_traj passes
+                # the PATH of the --transform_right file as right_mul
+                yes = {"str": "transform.json", "int": 1,
+                       "np": np.bool_(True)}.get(step.get("flag_as"), True)
+                if step.get("flag_as"):
+                    m.probe_hit("transform_flag_truthy_non_bool")
                 if step.get("positional"):
-                    e.obj.transform(Tm, True)
+                    e.obj.transform(Tm, yes)
                 else:
-                    e.obj.transform(Tm, right_mul=True)
+                    e.obj.transform(Tm, right_mul=yes)
                 e.model.right(Rt, tt)
             else:
+                yes = {"str": "transform.json", "int": 1,
+                       "np": np.bool_(True)}.get(step.get("flag_as"), True)
                 if step.get("positional"):
-                    e.obj.transform(Tm, True, True)
+                    e.obj.transform(Tm, yes, True)
                 else:
-                    e.obj.transform(Tm, right_mul=True, propagate=True)
+                    e.obj.transform(Tm, right_mul=yes, propagate=True)
                 e.model.right_propagate(Rt, tt)
             m.probe_hit("transform_" + mode)
             receivers.append(e)
@@ -770,9 +779,40 @@ def do_compute(m: Machine, step):
     elif what == "write_kitti":
         evo.file_interface.write_kitti_poses_file(io.StringIO(), a.obj)
     elif what == "to_df":
-        evo.pandas_bridge.trajectory_to_df(a.obj)
+        df = evo.pandas_bridge.trajectory_to_df(a.obj)
+        if len(df) > 0:
+            # the frame is the caller's: editing it in place (what pandas
+            # offers for that) must not reach the trajectory - the pool's
+            # bit-for-bit comparison after this step is the judge
+            df.iloc[0, 0] = float(df.iloc[0, 0]) + 1.0
+            df.loc[:, "z"] = 0.0
+            if df.index.is_unique:
+                df.update(df * 2.0)
+            m.probe_hit("derived_dataframe_edited_in_place")
         if a.stamped and a.model.n >= 2 and a.model.stamps_strictly_increasing():
             evo.pandas_bridge.trajectory_stats_to_df(a.obj)
+    elif what == "save_table":
+        # writing a table leaves the DataFrame it is given unchanged
+        import pickle
+        import tempfile
+        keys = [u for u in step.get("results", ()) if u in m.results]
+        if keys:
+            df = evo.pandas_bridge.result_to_df(m.results[keys[0]][0])
+        else:
+            df = evo.pandas_bridge.trajectory_to_df(a.obj)
+        before = pickle.dumps(df)
+        fmt = step.get("fmt", "csv")
+        if not (df.index.is_unique and df.columns.is_unique):
+            fmt = "csv"  # pandas' json writer wants unique labels
+        with tempfile.TemporaryDirectory() as d:
+            evo.pandas_bridge.save_df_as_table(
+                df, os.path.join(d, "t.out"), fmt,
+                bool(step.get("transpose")), False)
+        if pickle.dumps(df) != before:
+            raise Violation("C16", "argument-changed", op="compute",
+                            fn="save_df_as_table (the caller's DataFrame)",
+                            transpose=bool(step.get("transpose")))
+        m.probe_hit("compute_save_table")
     elif what == "merge_results":
         rs = [m.results[u][0] for u in step.get("results", ())
               if u in m.results]
@@ -1189,7 +1229,8 @@ def gen_step(m: Machine, rng, uid):
                 return None
             return {"op": op, "uid": uid, "obj": e.uid, "mode": mode,
                     "T": gen_T(rng, scale), "positional": rng.random() < 0.3,
-                    "propagate_flag": mode == "left" and rng.random() < 0.25}
+                    "propagate_flag": mode == "left" and rng.random() < 0.25,
+                    "flag_as": rng.choice([None, None, "str", "int", "np"])}
         if op == "scale":
             s = rng.choice([0.5, 2.0, 0.1, 10.0, 1.0, 1.5, 0.999, 3.25])
             if not (1e-3 <= e.model.scale_acc * s <= 1e3):
@@ -1336,7 +1377,7 @@ def gen_step(m: Machine, rng, uid):
                        "umeyama", "write_tum", "write_kitti", "to_df",
                        "merge_results", "result_io", "ape", "rpe", "lie",
                        "geometry", "filter_pairs", "helpers",
-                       "mutator_args"] +
+                       "mutator_args", "save_table"] +
                       (["plot"] if rng.random() < 0.15 else []) +
                       (["plot_result"] if rng.random() < 0.08 else []))
     st = {"op": "compute", "uid": uid, "what": what, "a": e.uid}
@@ -1366,6 +1407,10 @@ def gen_step(m: Machine, rng, uid):
                                      "bags/run_01/", "/odom", "C:\\d\\e\\",
                                      "est 2", ""])
         st["ref_name"] = rng.choice(["reference", "gt/ref.txt", "/gt"])
+    elif what == "save_table":
+        st["fmt"] = rng.choice(["csv", "json"])
+        st["transpose"] = rng.random() < 0.5
+        st["results"] = sorted(m.results)[-2:]
     elif what == "mutator_args":
         st["T"] = gen_T(rng, scale)
         st["s"] = rng.choice([2.0, 0.5, 1.000001, 10.0])
